@@ -1839,6 +1839,7 @@ func elementToBytes(el *etree.Element) ([]byte, error) {
 	}
 
 	doc := etree.NewDocument()
+	doc.WriteSettings = canonicalWriteSettings
 	doc.SetRoot(el.Copy())
 	for space, uri := range namespaces {
 		doc.Root().CreateAttr("xmlns:"+space, uri)
